@@ -66,8 +66,8 @@ probes_struct! {
         reset_cells: 6,
         witness: 16,
         api_calls: 40,
-        faults_fired: 25,
-        faults_in_flight: 25,
+        faults_fired: 26,
+        faults_in_flight: 26,
         repr_used: 4,
         channels_used: 16,
         timeout_class_runs: 3,
